@@ -3,14 +3,15 @@
 import json, os
 root = os.path.dirname(os.path.dirname(os.path.abspath(__file__)))
 T = json.load(open(os.path.join(root, 'tools', 'plan_table.json')))
-def write(pid, level, pkgs, funcs, assumptions, bounded=None):
+def write(pid, level, pkgs, funcs, assumptions, bounded=None, lemmas=None):
     p = {"property": pid, "level": level, "packages": pkgs, "functions": funcs, "assumptions": assumptions}
     if bounded: p["bounded"] = bounded
+    if lemmas: p["lemmas"] = lemmas
     json.dump(p, open(os.path.join(root, 'plan', pid + '.json'), 'w'), indent=1)
 for pid, spec in T.items():
     funcs = []
     for grp in spec["groups"]:
         for k in grp["keys"]:
             funcs.append({"key": k, "select": grp["select"]})
-    write(pid, spec["level"], spec["packages"], funcs, spec.get("assumptions", []), spec.get("bounded"))
+    write(pid, spec["level"], spec["packages"], funcs, spec.get("assumptions", []), spec.get("bounded"), spec.get("lemmas"))
 print("plans:", ", ".join(T.keys()))
